@@ -84,7 +84,7 @@ pub struct Case {
 pub struct SpeedLaw;
 
 fn gen_params(t: &mut Tape, n: usize) -> Vec<(f64, f64)> {
-    let mode = t.weighted(&[5, 2, 1, 1]);
+    let mode = t.weighted(&[10, 4, 2, 2, 3]);
     let m0 = t.log_uniform(0.2, 60.0);
     let v0 = t.log_uniform(1e-3, 400.0);
     (0..n)
@@ -92,6 +92,13 @@ fn gen_params(t: &mut Tape, n: usize) -> Vec<(f64, f64)> {
             0 => (t.log_uniform(0.2, 60.0), t.log_uniform(1e-3, 400.0)),
             1 => (m0, v0),                                         // all equal: equal-cost ties
             2 => (t.urange(1, 12) as f64 + 0.5, v0),               // exact .5 means
+            4 => {
+                // a hair beside a .5 boundary (interpolated means land anywhere): 1 ulp .. 1e-7
+                let b = t.urange(0, 59) as f64 + 0.5;
+                let d = *t.pick(&[0.0, 1e-7, 3e-8, 1e-9, 1e-12]);
+                let m = if d == 0.0 { f64::from_bits(b.to_bits() - 1) } else { b - d };
+                (if t.chance(0.3) { 2.0 * b - m } else { m }, t.log_uniform(1e-3, 400.0))
+            }
             _ => (t.uniform(0.2, 1.6), t.log_uniform(1e-3, 400.0)), // floor dominated
         })
         .collect()
@@ -103,7 +110,7 @@ impl Prop for SpeedLaw {
         "speed-law".into()
     }
     fn rule(&self) -> String {
-        "DurationEstimator::create on 1..200 generated states (means log-uniform 0.2..60, variances 1e-3..400; modes: independent | all equal (ties) | exact .5 means | floor-dominated) at speed 1 and 4 sorted speeds in [0.1,50] (log-uniform | special | near 1 | constructed rounding boundaries F1/(k+0.5) +- 0..2 ulp), in 30 % of the eligible cases after an alignment request on the same estimator object; oracle: d_i == max(round(mean_i),1) at speed 1, sum == max(round(F1/s), n), d_i >= 1, totals non-increasing in s. Non-trivial: a speed != 1 for which the all-ones floor or a total different from F1 occurs".into()
+        "DurationEstimator::create on 1..200 generated states (means log-uniform 0.2..60, variances 1e-3..400; modes: independent | all equal (ties) | exact .5 means | floor-dominated | means 1 ulp..1e-7 beside a .5 boundary) at speed 1 and 4 sorted speeds in [0.1,50] (log-uniform | special | near 1 | constructed rounding boundaries F1/(k+0.5) +- 0..2 ulp), in 30 % of the eligible cases after an alignment request on the same estimator object; oracle: d_i == max(round(mean_i),1) at speed 1, sum == max(round(F1/s), n), d_i >= 1, totals non-increasing in s. Non-trivial: a speed != 1 for which the all-ones floor or a total different from F1 occurs".into()
     }
     fn tape_len(&self, _: Tier) -> usize {
         900
